@@ -10,7 +10,7 @@ SPEC = dict(
                "Separately, thousands of file contents (as Save writes them with every kind of max_size, wrong types, duplicate keys, every "
                "truncation of a valid file with and without a byte-order mark, byte flips, random bytes, every file of one and two bytes, every "
                "file of three (thorough: four) bytes over 30 bytes significant to a JSON / UTF-8 reader, valid files whose entries are not in "
-               "timestamp order) are put in place of the history file and Load + AddEntry + Save + views are run on them; the views must "
+               "timestamp order or whose last entry is dated decades ahead, histories of 1-17 MiB with long queries) are put in place of the history file and Load + AddEntry + Save + views are run on them; the views must "
                "leave the entries as they were. Exploration over generated histories and files, not proof.",
     level_note="Trusted: the generators, the reference log (30 lines), the Go runtime and encoding/json. Timestamps are the ones the code "
                "takes itself; the monitor only compares them with each other and with the interval of the AddEntry call (monotonic clock).",
@@ -26,10 +26,10 @@ SPEC = dict(
          "histfiles: case = one file content; non-trivial = a distinct content that is a valid JSON object or a truncation of a valid "
          "file. evaluations = histories + files (operations are in coverage.histmodel_operations).",
     floors=T({"cli-history-sessions": 40, "cli-history-with-repeats": 15, "evaluations": 7500, "distinct_nontrivial": 2500, "trim": 1500, "collapse": 2500, "save-load-cycles": 2500, "clear": 1000,
-              "save-verified": 20000, "files-valid": 600, "files-truncated": 600, "files-garbage": 800, "files-maxsize-nonpositive": 300, "files-short-exhaustive": 92792, "files-timestamps-out-of-order": 40},
+              "save-verified": 20000, "files-valid": 600, "files-truncated": 600, "files-garbage": 800, "files-maxsize-nonpositive": 300, "files-short-exhaustive": 92792, "files-timestamps-out-of-order": 40, "files-over-4MiB": 5, "files-ending-with-the-repeated-query": 80},
              {"evaluations": 150000, "distinct_nontrivial": 50000, "trim": 30000, "collapse": 70000, "save-load-cycles": 50000,
               "clear": 20000, "save-verified": 400000, "files-valid": 12000, "files-truncated": 12000, "files-garbage": 16000,
-              "files-maxsize-nonpositive": 6000, "files-short-exhaustive": 902792, "files-timestamps-out-of-order": 900}),
+              "files-maxsize-nonpositive": 6000, "files-short-exhaustive": 902792, "files-timestamps-out-of-order": 900, "files-over-4MiB": 5, "files-ending-with-the-repeated-query": 1500}),
     assumptions=[
         "the maximum asserted is the object's own MaxSize field: whatever positive value NewSearchHistory / Load leave there (a requested "
         "maximum <= 0 may be replaced by any positive default); in histmodel a MaxSize <= 0 is itself reported (clause bound)",
